@@ -12,6 +12,8 @@ from jinns.data._Batchs import ODEBatch
 from jinns.validation._validation import AbstractValidationModule
 
 NT = 2          # number of loss terms of the opaque loss
+# the loss declares its terms in this order, which is not the alphabetical one (jit / scan rebuild dictionaries sorted)
+TERM_NAMES = ("zeta_term", "alpha_term")
 B = 2           # batch size
 KS = 1          # generator state size
 
@@ -67,7 +69,7 @@ class OLoss(eqx.Module):
         fb = flat_batch(batch)
         L = registry()[f"L{fb.shape[0]}"]       # the loss of whatever parts the batch actually carries
         y = L(jnp.concatenate([params.nn_params, jnp.reshape(params.eq_params["a"], (1,)), self.w, fb]))
-        return y[0], {f"t{j}": y[1 + j] for j in range(NT)}
+        return y[0], {TERM_NAMES[j]: y[1 + j] for j in range(NT)}
 
     evaluate = __call__
 
